@@ -109,6 +109,55 @@ theorem liftE_ok_iff {s : σ} {x : Except ε α} {a : α} : liftE s x = (.ok a :
   | ok b => constructor <;> intro h <;> cases h <;> rfl
   | error e' => constructor <;> intro h <;> cases h
 
+theorem bind_error_iff {x : StM ε σ α} {f : α → StM ε σ β} {p : ε × σ} :
+    x >>= f = .error p ↔ x = .error p ∨ ∃ a, x = .ok a ∧ f a = .error p := by
+  cases x with
+  | ok a =>
+    constructor
+    · intro h; exact Or.inr ⟨a, rfl, h⟩
+    · intro h
+      rcases h with h | ⟨a', h1, h2⟩
+      · cases h
+      · cases h1; exact h2
+  | error q =>
+    constructor
+    · intro h
+      have : q = p := by cases h; rfl
+      subst this; exact Or.inl rfl
+    · intro h
+      rcases h with h | ⟨a', h1, _⟩
+      · cases h; rfl
+      · cases h1
+
+theorem bind_ok_iff {x : StM ε σ α} {f : α → StM ε σ β} {b : β} :
+    x >>= f = .ok b ↔ ∃ a, x = .ok a ∧ f a = .ok b := by
+  cases x with
+  | ok a =>
+    constructor
+    · intro h; exact ⟨a, rfl, h⟩
+    · rintro ⟨a', h1, h2⟩; cases h1; exact h2
+  | error q =>
+    constructor
+    · intro h; cases h
+    · rintro ⟨a', h1, _⟩; cases h1
+
+theorem throw_eq (p : ε × σ) : (throw p : StM ε σ α) = .error p := rfl
+theorem pure_eq (a : α) : (pure a : StM ε σ α) = .ok a := rfl
+
+/-- a loop all of whose iterations raise only exceptions satisfying `Q` raises only such exceptions -/
+theorem forIn_error_of_step {l : List γ} {f : γ → β → StM ε σ (ForInStep β)} (Q : ε × σ → Prop)
+    (hstep : ∀ a ∈ l, ∀ b p, f a b = .error p → Q p) (init : β) (p : ε × σ)
+    (h : forIn l init f = .error p) : Q p := by
+  induction l generalizing init with
+  | nil => cases h
+  | cons a l ih =>
+    simp only [List.forIn_cons] at h
+    rcases bind_error_iff.1 h with h1 | ⟨r, _, h2⟩
+    · exact hstep a (List.mem_cons_self ..) init p h1
+    · cases r with
+      | done b => cases h2
+      | yield b => exact ih (fun a' ha' => hstep a' (List.mem_cons_of_mem _ ha')) b h2
+
 /-- the exception of a `for` loop is the exception of one of its iterations: if every iteration started in a loop
 state satisfying `P` either continues in such a state or raises an exception satisfying `Q`, the loop's exception
 satisfies `Q` -/
@@ -141,6 +190,101 @@ theorem forIn_error_inv {l : List γ} {f : γ → β → StM ε σ (ForInStep β
         have : b' = b := by cases h; rfl
         subst this; exact hp
       | yield b => exact ih' b hp
+
+end MalVerif.PySt
+
+namespace MalVerif.PySt
+variable {ε σ α β γ : Type}
+
+/-! ### where exceptions come from: `ErrIn Q x` — every exception of `x` (with its heap) satisfies `Q` -/
+
+structure ErrIn (Q : ε × σ → Prop) (x : StM ε σ α) : Prop where
+  out : ∀ p, x = .error p → Q p
+
+/-- a side condition left to the user by `st_err`: the exception `p` raised at this point must satisfy `Q` (the
+hypotheses in the context are the conditions of the path to this `raise`) -/
+structure Side (P : Prop) : Prop where
+  out : P
+
+theorem ErrIn.of_pure {Q : ε × σ → Prop} (a : α) : ErrIn Q (Pure.pure a : StM ε σ α) := ⟨fun _ h => by cases h⟩
+theorem ErrIn.of_throw {Q : ε × σ → Prop} {p : ε × σ} (h : Q p) : ErrIn Q (throw p : StM ε σ α) := by
+  refine ⟨fun p' h' => ?_⟩
+  have : p' = p := by cases h'; rfl
+  subst this; exact h
+theorem ErrIn.of_throw_side {Q : ε × σ → Prop} {p : ε × σ} (h : Side (Q p)) : ErrIn Q (throw p : StM ε σ α) :=
+  ErrIn.of_throw h.out
+theorem ErrIn.of_throw_bind {Q : ε × σ → Prop} {p : ε × σ} {f : α → StM ε σ β} (h : Q p) :
+    ErrIn Q ((throw p : StM ε σ α) >>= f) := by
+  refine ⟨fun p' h' => ?_⟩
+  have : p' = p := by cases h'; rfl
+  subst this; exact h
+theorem ErrIn.of_throw_bind_side {Q : ε × σ → Prop} {p : ε × σ} {f : α → StM ε σ β} (h : Side (Q p)) :
+    ErrIn Q ((throw p : StM ε σ α) >>= f) := ErrIn.of_throw_bind h.out
+theorem ErrIn.of_liftE {Q : ε × σ → Prop} {s : σ} {x : Except ε α} (h : ∀ e, x = .error e → Q (e, s)) :
+    ErrIn Q (liftE s x) := by
+  refine ⟨fun p hp => ?_⟩
+  obtain ⟨e, s'⟩ := p
+  obtain ⟨h1, h2⟩ := liftE_error_iff.1 hp
+  subst h2; exact h e h1
+theorem ErrIn.of_liftE_side {Q : ε × σ → Prop} {s : σ} {x : Except ε α} (h : ∀ e, x = .error e → Side (Q (e, s))) :
+    ErrIn Q (liftE s x) := ErrIn.of_liftE (fun e he => (h e he).out)
+theorem ErrIn.of_bind {Q : ε × σ → Prop} {x : StM ε σ α} {f : α → StM ε σ β}
+    (h1 : ErrIn Q x) (h2 : ∀ a, x = .ok a → ErrIn Q (f a)) : ErrIn Q (x >>= f) := by
+  refine ⟨fun p hp => ?_⟩
+  rcases bind_error_iff.1 hp with h | ⟨a, ha, hf⟩
+  · exact h1.out p h
+  · exact (h2 a ha).out p hf
+theorem ErrIn.of_ite {Q : ε × σ → Prop} {c : Prop} [Decidable c] {x y : StM ε σ α}
+    (h1 : c → ErrIn Q x) (h2 : ¬ c → ErrIn Q y) : ErrIn Q (if c then x else y) := by
+  split
+  · exact h1 ‹_›
+  · exact h2 ‹_›
+/-- a `for` loop with an invariant `P` of its loop state: the exceptions of every iteration started in a state
+satisfying `P` satisfy `Q` -/
+theorem ErrIn.of_forIn_inv {Q : ε × σ → Prop} {l : List γ} {init : β} {f : γ → β → StM ε σ (ForInStep β)}
+    (P : β → Prop) (hinit : P init)
+    (hstep : ∀ a ∈ l, ∀ b, P b → ErrIn Q (f a b) ∧
+      ∀ r, f a b = .ok r → P (match r with | .yield b' => b' | .done b' => b')) :
+    ErrIn Q (forIn l init f) := by
+  refine ⟨fun p hp => ?_⟩
+  exact (forIn_error_inv P Q (fun a ha b hb => ⟨(hstep a ha b hb).2, fun p h => (hstep a ha b hb).1.out p h⟩) init hinit).1 p hp
+/-- a `for` loop without invariant -/
+theorem ErrIn.of_forIn {Q : ε × σ → Prop} {l : List γ} {init : β} {f : γ → β → StM ε σ (ForInStep β)}
+    (hstep : ∀ a b, ErrIn Q (f a b)) : ErrIn Q (forIn l init f) :=
+  ⟨fun p hp => forIn_error_of_step Q (fun a _ b p h => (hstep a b).out p h) init p hp⟩
+theorem ErrIn.mono {Q Q' : ε × σ → Prop} {x : StM ε σ α} (h : ErrIn Q x) (hq : ∀ p, Q p → Q' p) : ErrIn Q' x :=
+  ⟨fun p hp => hq p (h.out p hp)⟩
+theorem ErrIn.of_eq {Q : ε × σ → Prop} {x y : StM ε σ α} (h : ErrIn Q y) (e : x = y) : ErrIn Q x := e ▸ h
+/-- the observable form: if the run raised, its final heap satisfies `Q` -/
+theorem ErrIn.run {Q : ε × σ → Prop} {x : StM ε σ σ} (h : ErrIn Q x) {e : ε} (he : (run x).2 = .error e) :
+    Q (e, (run x).1) := h.out _ (run_error_iff.1 he)
+
+/-- one step of `st_err` -/
+syntax "st_err_step" "[" term,* "]" : tactic
+macro_rules
+  | `(tactic| st_err_step [$ls,*]) => do
+    let ts : Array (Lean.TSyntax `term) := ls.getElems
+    `(tactic| first
+      | exact ErrIn.of_pure _
+      | (apply ErrIn.of_throw_bind; rfl)
+      | (apply ErrIn.of_throw; rfl)
+      | apply ErrIn.of_throw_bind_side
+      | apply ErrIn.of_throw_side
+      | (first $[| exact $ts]* | fail)
+      | apply ErrIn.of_bind
+      | apply ErrIn.of_forIn
+      | apply ErrIn.of_ite
+      | apply ErrIn.of_liftE_side
+      | intro _
+      | (show ErrIn _ _; split)
+      | (show ErrIn _ _; dsimp only))
+
+/-- `ErrIn Q (f_st s a)` after unfolding: walks the `do` block; every `raise` whose exception satisfies `Q` by `rfl`
+is discharged, the others are left as goals `Side (Q (e, heap))` with the path conditions in the context.  The terms
+given are `ErrIn` facts about the state-keeping functions that are called. -/
+syntax "st_err" "[" term,* "]" : tactic
+macro_rules
+  | `(tactic| st_err [$ls,*]) => `(tactic| (repeat' (st_err_step [$ls,*])))
 
 end MalVerif.PySt
 
